@@ -303,3 +303,7 @@ mod tests {
         Ok(())
     }
 }
+
+#[cfg(kani)]
+#[path = "/verif/harness/bgzf/writer.rs"]
+mod verif_kani;
